@@ -85,8 +85,22 @@ class _AliasTracker:
         alive = self._cleanup_dead_refs(refs)
         self._registry[tuple_id] = alive
 
-        # Count how many Vectors still alive share this tuple
-        owners = [r() for r in alive if r() is not None]
+        # Count how many Vectors still alive share this tuple.
+        # A registration only counts while the vector still uses that storage:
+        # an entry left behind by a storage swap that was never unregistered
+        # (a Table re-initialised by Vector.__new__, a column replaced through
+        # Table.__setattr__) must not make an unrelated vector that later
+        # receives the recycled id() look shared.
+        owners = []
+        for r in alive:
+            obj = r()
+            if obj is None:
+                continue
+            if id(getattr(obj, '_underlying', None)) != tuple_id:
+                continue
+            owners.append(obj)
+        alive = [r for r in alive if any(r() is o for o in owners)]
+        self._registry[tuple_id] = alive
 
         if len(owners) <= 1:
             return True
